@@ -335,7 +335,10 @@ def still_fails(script, env, mode, kind):
         out = core.run_impl("graph", script, mode, env_extra=ENVS[env][0])
     except core.ImplBroken:
         return False
-    return any(msg_kind(m) == kind for _, m in oracle(_Null(), script, out, env, mode))
+    try:
+        return any(msg_kind(m) == kind for _, m in oracle(_Null(), script, out, env, mode))
+    except Exception:
+        return False
 
 
 class _Null:
@@ -377,6 +380,8 @@ def check(tier):
         if keyf in seen_sig:
             continue
         seen_sig.add(keyf)
+        if len(seen_sig) > 3:
+            break
         script = runner.ddmin(f["script"], lambda s: still_fails(s, f["env"], f["mode"], msg_kind(f["message"])), budget=25)
         chk.violation("%s [env=%s mode=%s]" % (f["message"], f["env"], f["mode"]),
                       dict(kind="input", mode=f["mode"], env=f["env"], script=script, observed=f["observed"],
